@@ -394,11 +394,11 @@ class Run:
                 self.obligations.append(("translator:" + prop_dir, False, str(e)))
                 return False
             self.obligations.append(("translator:" + prop_dir, True, ""))
-        hits = coq_gate()
+        dirs = list(dirs or []) + [prop_dir]
+        hits = coq_gate(paths=["Common"] + dirs)
         self.obligations.append(("gate:no-admitted-no-axiom", not hits, "; ".join(hits[:5])))
         if hits:
             self.broken.append(("gate", "coq", "; ".join(hits[:10])))
-        dirs = list(dirs or []) + [prop_dir]
         files = [f for f in coq_project_files([prop_dir]) if not f.endswith("Properties.v")]
         targets = [f[:-2] + ".vo" for f in files] + list(extra_targets)
         cmd = "cd coq && coq_makefile -f _CoqProject.%s -o Makefile.X && make -f Makefile.X -j%d %s" % (prop_dir, NPROC, " ".join(targets))
